@@ -22,6 +22,7 @@ from mc.runner import Result
 
 PROPERTY = "C14"
 LEVEL = "model_checking"
+TECHNIQUE = "explicit-state exploration of API-call histories from fresh interpreters with state snapshots; exhaustive pairs/triples of co-computed lazy results"
 ENGINE = "E5"
 FRESH_PROCESS_PER_SHARD = True
 RULE = (
